@@ -831,7 +831,7 @@ class SQLParser:
     def _parse_compute_expression(cls, scanner: TokenScanner, sql_type: SQLType) -> GeneralExpression:
         stack: List[Union[GeneralExpression, static.EnumComputeOperator]]
         stack = [cls._parse_unary_level_expression(scanner, sql_type)]
-        while compute_operator := static.COMPUTE_OPERATOR_HASH.get(scanner.get_as_source_or_null()):
+        while compute_operator := static.COMPUTE_OPERATOR_HASH.get((scanner.get_as_source_or_null() or "").upper()):
             while len(stack) >= 3 and compute_operator.level >= stack[-2].level:
                 after_value: GeneralExpression = stack.pop()
                 last_compute_operator = stack.pop()
@@ -959,7 +959,7 @@ class SQLParser:
                 return before_value
 
         # 如果后续是连续的关键字条件表达式的关键字，则将当前关键字表达式作为下一个关键字表达式的 before_value 继续解析
-        if scanner.get_as_source_or_null() in {"NOT", "BETWEEN", "IS", "IN", "LIKE", "RLIKE", "REGEXP"}:
+        if (scanner.get_as_source_or_null() or "").upper() in {"NOT", "BETWEEN", "IS", "IN", "LIKE", "RLIKE", "REGEXP"}:
             return cls._parse_keyword_condition_level_expression(scanner, result_value, sql_type=sql_type)
 
         # 如果后续不是关键字条件表达式的关键字，则直接返回当前的关键字条件表达式
